@@ -162,7 +162,7 @@ func newEventFromUntrustedJSONV2(eventJSON []byte, roomVersion IRoomVersion) (PD
 	}
 
 	if err := checkID(res.eventFields.RoomID, "room", '!'); err != nil {
-		return nil, err
+		return nil, roomIDErrorOnParse(err, eventJSON, &res.eventFields, roomVersion.Version())
 	}
 
 	res.roomVersion = roomVersion.Version()
@@ -242,37 +242,9 @@ func CheckFields(input PDU) error { // nolint: gocyclo
 	if input.AuthEventIDs() == nil || input.PrevEventIDs() == nil {
 		return errors.New("gomatrixserverlib: auth events and prev events must not be nil")
 	}
-	if err := checkEventLength(input.JSON()); err != nil {
+	senderErr, err := checkHardLimits(input.JSON(), input.Type(), input.StateKey(), string(input.SenderID()), input.Version())
+	if err != nil {
 		return err
-	}
-
-	// The sender is checked along with the other hard limits: a sender that is
-	// too long in code points makes the event unacceptable even if the type or
-	// state key merely exceeds the (lenient) byte limit.
-	var senderErr error
-	if input.Version() != RoomVersionPseudoIDs {
-		senderErr = checkID(string(input.SenderID()), "user", '@')
-		var lenient EventValidationError
-		if senderErr != nil && !(errors.As(senderErr, &lenient) && lenient.Persistable) {
-			return senderErr
-		}
-	}
-
-	// Compatibility to Synapse and older rooms. This was always enforced by Synapse
-	if l := utf8.RuneCountInString(input.Type()); l > maxIDLength {
-		return EventValidationError{
-			Code:    EventValidationTooLarge,
-			Message: fmt.Sprintf("gomatrixserverlib: event type is too long, length %d bytes > maximum %d bytes", l, maxIDLength),
-		}
-	}
-
-	if input.StateKey() != nil {
-		if l := utf8.RuneCountInString(*input.StateKey()); l > maxIDLength {
-			return EventValidationError{
-				Code:    EventValidationTooLarge,
-				Message: fmt.Sprintf("gomatrixserverlib: state key is too long, length %d bytes > maximum %d bytes", l, maxIDLength),
-			}
-		}
 	}
 
 	_, persistable := lenientByteLimitRoomVersions[input.Version()]
@@ -300,6 +272,64 @@ func CheckFields(input PDU) error { // nolint: gocyclo
 	return senderErr
 }
 
+// checkHardLimits applies the limits that make an event unacceptable: the size
+// of its JSON, the number of code points of its type and state key, and its
+// sender (unless the sender is a pseudo ID). The first result is the sender's
+// error when the sender exceeds the lenient byte limit only.
+func checkHardLimits(eventJSON []byte, eventType string, stateKey *string, senderID string, version RoomVersion) (lenientSenderErr, err error) {
+	if err = checkEventLength(eventJSON); err != nil {
+		return nil, err
+	}
+
+	// The sender is checked along with the other hard limits: a sender that is
+	// too long in code points makes the event unacceptable even if the type or
+	// state key merely exceeds the (lenient) byte limit.
+	if version != RoomVersionPseudoIDs {
+		senderErr := checkID(senderID, "user", '@')
+		if senderErr != nil && !isLenientLimit(senderErr) {
+			return nil, senderErr
+		}
+		lenientSenderErr = senderErr
+	}
+
+	// Compatibility to Synapse and older rooms. This was always enforced by Synapse
+	if l := utf8.RuneCountInString(eventType); l > maxIDLength {
+		return nil, EventValidationError{
+			Code:    EventValidationTooLarge,
+			Message: fmt.Sprintf("gomatrixserverlib: event type is too long, length %d bytes > maximum %d bytes", l, maxIDLength),
+		}
+	}
+
+	if stateKey != nil {
+		if l := utf8.RuneCountInString(*stateKey); l > maxIDLength {
+			return nil, EventValidationError{
+				Code:    EventValidationTooLarge,
+				Message: fmt.Sprintf("gomatrixserverlib: state key is too long, length %d bytes > maximum %d bytes", l, maxIDLength),
+			}
+		}
+	}
+	return lenientSenderErr, nil
+}
+
+// isLenientLimit reports whether the error is the "too large but persistable"
+// verdict of a limit that is only enforced leniently.
+func isLenientLimit(err error) bool {
+	var lenient EventValidationError
+	return errors.As(err, &lenient) && lenient.Persistable
+}
+
+// roomIDErrorOnParse decides what to report for an event whose room ID was
+// refused by checkID. If only the lenient byte limit of the room ID is
+// exceeded, a limit that makes the event unacceptable takes precedence.
+func roomIDErrorOnParse(roomErr error, eventJSON []byte, fields *eventFields, version RoomVersion) error {
+	if isLenientLimit(roomErr) {
+		if _, hardErr := checkHardLimits(eventJSON, fields.Type, fields.StateKey, fields.SenderID, version); hardErr != nil {
+			return hardErr
+		}
+	}
+	return roomErr
+}
+
 // checkEventLength refuses event JSON that is larger than an event may be.
 func checkEventLength(eventJSON []byte) error {
 	if l := len(eventJSON); l > maxEventLength {
@@ -318,7 +348,7 @@ func newEventFromTrustedJSONV2(eventJSON []byte, redacted bool, roomVersion IRoo
 	}
 
 	if err := checkID(res.eventFields.RoomID, "room", '!'); err != nil {
-		return nil, err
+		return nil, roomIDErrorOnParse(err, eventJSON, &res.eventFields, roomVersion.Version())
 	}
 
 	res.roomVersion = roomVersion.Version()
@@ -337,7 +367,7 @@ func newEventFromTrustedJSONWithEventIDV2(eventID string, eventJSON []byte, reda
 	}
 
 	if err := checkID(res.eventFields.RoomID, "room", '!'); err != nil {
-		return nil, err
+		return nil, roomIDErrorOnParse(err, eventJSON, &res.eventFields, roomVersion.Version())
 	}
 
 	res.roomVersion = roomVersion.Version()
